@@ -77,14 +77,14 @@ theorem c13b_handle_toStash (s : DashIt K) (h : s.state = .ToStash) :
 
 /-! ### frame lemmas for `step` and for chains of `step`s -/
 
-/-- a `step` either leaves the input side alone or is the segment-ending step (`get_input`) -/
-theorem c13b_step_frame (s s' : DashIt K) (r : Option (PathEl K)) (e : s.step = some (r, s')) :
+/-- a `step` in state `Working` either leaves the input side alone or is the segment-ending step (`get_input`) -/
+theorem c13b_step_frame (s s' : DashIt K) (r : Option (PathEl K)) (hw : s.state = .Working) (e : s.step = some (r, s')) :
     (s'.inner = s.inner ∧ s'.start_pt = s.start_pt ∧ s'.last_pt = s.last_pt ∧
       s'.closepath_pending = s.closepath_pending ∧ s'.input_done = s.input_done ∧ s.SameInit s') ∨
     s' = ({ s with dash_remaining := s.dash_remaining - s.seg_remaining } : DashIt K).get_input := by
   cases h0 : (s.state == .ToStash && s.stash.isEmpty)
   · cases h1 : Scalar.lt s.dash_remaining s.seg_remaining
-    · rw [step_seg_end s h0 h1] at e
+    · rw [step_seg_end_ns s h0 (by rw [hw]; rfl) h1] at e
       simp only [Option.some.injEq, Prod.mk.injEq] at e
       right
       rw [← e.2]
@@ -103,8 +103,9 @@ theorem c13b_step_frame (s s' : DashIt K) (r : Option (PathEl K)) (e : s.step = 
     · cases e
       exact Or.inl ⟨rfl, rfl, rfl, rfl, rfl, ⟨rfl, rfl, rfl, rfl⟩⟩
 
-theorem c13b_step_sameInit (s s' : DashIt K) (r : Option (PathEl K)) (e : s.step = some (r, s')) : s.SameInit s' := by
-  rcases c13b_step_frame s s' r e with h | h
+theorem c13b_step_sameInit (s s' : DashIt K) (r : Option (PathEl K)) (hw : s.state = .Working)
+    (e : s.step = some (r, s')) : s.SameInit s' := by
+  rcases c13b_step_frame s s' r hw e with h | h
   · exact h.2.2.2.2.2
   · rw [h]
     exact DashIt.SameInit.trans ⟨rfl, rfl, rfl, rfl⟩ (get_input_phase _).1
@@ -112,7 +113,7 @@ theorem c13b_step_sameInit (s s' : DashIt K) (r : Option (PathEl K)) (e : s.step
 theorem c13b_steps_sameInit {s s' : DashIt K} {outs : List (PathEl K)} (h : Steps s outs s') : s.SameInit s' := by
   induction h with
   | refl s => exact DashIt.SameInit.refl s
-  | cons _ e _ ih => exact DashIt.SameInit.trans (c13b_step_sameInit _ _ _ e) ih
+  | cons hw e _ ih => exact DashIt.SameInit.trans (c13b_step_sameInit _ _ _ hw e) ih
 
 theorem c13b_get_input_inner_le (s : DashIt K) : s.get_input.inner.length ≤ s.inner.length := by
   unfold DashIt.get_input
@@ -134,9 +135,9 @@ theorem c13b_steps_inner_le {s s' : DashIt K} {outs : List (PathEl K)} (h : Step
     s'.inner.length ≤ s.inner.length := by
   induction h with
   | refl s => exact le_rfl
-  | @cons s s1 s2 r outs _ e _ ih =>
+  | @cons s s1 s2 r outs hw e _ ih =>
     refine le_trans ih ?_
-    rcases c13b_step_frame s s1 r e with h | h
+    rcases c13b_step_frame s s1 r hw e with h | h
     · rw [h.1]
     · rw [h]; exact c13b_get_input_inner_le _
 
@@ -160,9 +161,9 @@ theorem c13b_steps_frame {s s₁ : DashIt K} {outs : List (PathEl K)} (h : Steps
       exact List.eq_nil_of_length_eq_zero (by omega)
     subst this
     exact ⟨rfl, rfl⟩
-  | @cons s s1 s2 r outs _ e hsteps ih =>
+  | @cons s s1 s2 r outs hw e hsteps ih =>
     intro pts rest hcp hne hin hin2
-    rcases c13b_step_frame s s1 r e with h | h
+    rcases c13b_step_frame s s1 r hw e with h | h
     · obtain ⟨a1, a2, a3, a4, -, -⟩ := h
       have := ih pts rest (a4.trans hcp) hne (a1.trans hin) hin2
       rw [a2, a3] at this
